@@ -242,7 +242,12 @@ func runC04(c *core.Check) {
 	}
 	c.Analysed("runtime_step_sign_cases", rtCases)
 	c.Analysed("loop_comparison_operators", opl)
-	c.Decide(rtCases <= loopCases, "range-direction", "toForStmt", forLit.Pos(), "the loop lowering distinguishes the same step-sign cases as the runtime range",
+	// the construct is keyed by the operators found, so that a known finding about one state of the code does not mask another
+	dirKey := "toForStmt:" + strings.Join(opl, "+")
+	if len(opl) == 0 {
+		dirKey = "toForStmt:computed"
+	}
+	c.Decide(rtCases <= loopCases, "range-direction", dirKey, forLit.Pos(), "the loop lowering distinguishes the same step-sign cases as the runtime range",
 		"the runtime range (xgo.IntRange.Gop_Enum) computes its length differently for step > 0 and step <= 0, so `10:0:-3` enumerates 10 7 4 1 in a comprehension; cl.toForStmt always emits the condition `i "+strings.Join(opl, "/")+" end`, so the same range in `for i <- 10:0:-3` (and `for i := range 10:0:-3`) enumerates nothing")
 }
 
